@@ -68,6 +68,12 @@ Section Pipeline.
   (* the bytes handed to raft.Apply *)
   Definition marshal (cfg : mcfg) (b : body) : bytes := enc_command (to_command cfg b).
 
+  (* A caller that marshals several requests before using any of the results (or several callers interleaving):
+     marshalling is a function of the configuration and the request alone, so the results are the list of the
+     individual results.  That the implementation's results do not depend on later calls (no shared output buffer)
+     is exactly what the driver's "held" and "concurrent" cases check. *)
+  Definition marshal_all (cfg : mcfg) (bs : list body) : list bytes := map (marshal cfg) bs.
+
   (* UnmarshalSubCommand *)
   Definition unmarshal_sub (c : command) : option body :=
     match (if c_compressed c then gunzip (c_sub c) else Some (c_sub c)) with
